@@ -48,7 +48,9 @@ class C19(Prop):
             "scheduler status change to any Status value, limit in {None,1..5}; held: diamond (2..6 branches) or scatter "
             "(width 2..6) of file jobs, all branch jobs fail their first attempt at a barrier at which the whole working "
             "directory is lost, the producer's re-execution is held until all recoveries synchronised (the window of the "
-            "theorem), seeded permuting loop; free: the same without the hold. Non-trivial = at least 2 synchronisations. "
+            "theorem) -- `held`: before its command completes, `heldout`: between the end of its command and the collection "
+            "of its outputs, the other jobs failing only once it is there; seeded permuting loop; free: the same without the "
+            "hold; stall (corpus): the producer's output collection is merely slow. Non-trivial = at least 2 synchronisations. "
             "Distinct = distinct canonical JSON.")
     TRUSTED = ("model: RecSync/Model.v (is_recovering status set, _synchronize_workflows decisions, lock order) is hand-written",
                "harness/props/_recov.py: workflow builders, failure injection with a barrier, hold of one re-execution, "
@@ -75,6 +77,11 @@ class C19(Prop):
              "barrier": {"jobs": branches(shape), "wipe": True}, "sched": rng.randrange(1 << 30)}
         if mode == "held":
             c["hold"] = {"job": producers(shape)[0], "attempt": 2, "syncs": k}
+        if mode == "heldout":
+            # the producer's re-execution is held between the end of its command and the collection of its outputs;
+            # all jobs but the first fail only then, so that their recoveries synchronise inside that window
+            c["late"] = branches(shape)[1:]
+            c["hold"] = {"job": producers(shape)[0], "attempt": 2, "syncs": k, "point": "output"}
         return c
 
     def gen(self, rng, tier):
@@ -90,8 +97,8 @@ class C19(Prop):
                 else:
                     evs.append(["set", rng.choice(names), rng.choice(REC + NOREC)])
             cases.append({"f": "rhist", "limit": lim, "events": evs})
-        for _ in range(ne):
-            cases.append(self._engine_case(rng, "held"))
+        for i in range(ne):
+            cases.append(self._engine_case(rng, "held" if i % 2 == 0 else "heldout"))
         for _ in range(nf):
             cases.append(self._engine_case(rng, "free"))
         return cases
@@ -154,7 +161,7 @@ class C19(Prop):
         if c["f"] == "rhist":
             return self._run_rhist(c)
         o = self.R.run_engine(c)
-        o["syncs"] = self.R.history_from_trace(o["trace"])
+        o["syncs"] = self.R.history_from_trace(o.get("trace", []))
         return o
 
     # ---------------------------------------------------------------- oracle (from the property text)
@@ -182,7 +189,9 @@ class C19(Prop):
                     if j in ups and ups[j][2] is not None:
                         status[j] = "ROLLBACK"
             return None
-        if any(e[0] == "hold-timeout" for e in o["trace"]):
+        if c["f"] == "stress":
+            return None   # only termination is judged (faults may exceed the limit: raising is fine)
+        if c["f"] != "stall" and any(e[0] in ("hold-timeout", "late-timeout") for e in o["trace"]):
             return ("sync-missing", "not every failed job's recovery reached synchronisation while the producer was held")
         if o["result"] != "completed":
             return ("not-completed", f"{len(c['faults'])} concurrent failures after one loss, limit {c['limit']}: run "
